@@ -286,10 +286,10 @@ namespace {
 bool commodity_t::symbol_needs_quotes(const string& symbol)
 {
   foreach (char ch, symbol)
-    if (invalid_chars[static_cast<unsigned char>(ch)])
+    if (invalid_chars[static_cast<unsigned char>(ch)] || ch == '\\' || ch == '"')
       return true;
 
-  return false;
+  return is_reserved_token(symbol.c_str());
 }
 
 void commodity_t::parse_symbol(std::istream& in, string& symbol)
